@@ -56,6 +56,7 @@ type c17World struct {
 }
 
 func runC17(t *testing.T, r *simkit.Run) {
+	dropPools()
 	simkit.Bubble(t, r, func() {
 		w := &c17World{r: r, tp: r.Tape, model: newMigModel(), cutoverDone: map[string]string{}, rewound: map[string]string{}}
 		defer func() {
